@@ -300,3 +300,54 @@ def float_identity(*modules):
                 m.float = old
             else:
                 del m.float
+
+
+# ---- scipy.special: vocabulary extension ---------------------------------------------------------------------
+# scipy's special functions are compiled ufuncs without object loops: a tree that calls one on a symbolic array
+# raises TypeError in symbolic mode only (a machinery error, exit 3). They are wrapped BEFORE wavespectra is
+# imported (vt/repo.setup), so that `from scipy.special import gammaln` binds the wrapper: floats go to the real
+# function, symbolic values to an uninterpreted function WITHOUT axioms. Sound for "holds": whatever is proven
+# holds for every interpretation; a model that depends on the interpretation is confirmed by the float replay
+# (real scipy) or dropped as spurious.
+SCIPY_SPECIAL = ("gammaln", "gamma", "loggamma", "erf", "erfc", "beta", "betaln", "digamma", "i0", "i1")
+
+
+def scipy_special_vocabulary():
+    import scipy.special as SS
+    import z3
+
+    from . import sym as S
+
+    def wrap(name, orig):
+        def one(*xs):
+            if any(isinstance(x, S.Sym) for x in xs):
+                if any(S.is_special(x) for x in xs):
+                    return S.NAN
+                key = "sp_%s_%d" % (name, len(xs))
+                if key not in S.UF:
+                    S.UF[key] = z3.Function(key, *([S.R] * (len(xs) + 1)))
+                return S.Sym(S.UF[key](*[S._tz(x) for x in xs]))
+            return S.CF(orig(*[float(x) for x in xs]))
+
+        def f(*xs, **kw):
+            if kw:
+                return orig(*xs, **kw)
+            for x in xs:
+                if hasattr(x, "dims") and hasattr(x, "copy") and getattr(getattr(x, "dtype", None), "kind", "") == "O":
+                    import xarray as xr
+                    return xr.apply_ufunc(f, *xs)
+            if any(isinstance(x, S.Sym) for x in xs):
+                return one(*xs)
+            if any(isinstance(x, np.ndarray) and x.dtype == object for x in xs):
+                return np.frompyfunc(one, len(xs), 1)(*xs)
+            return orig(*xs)
+
+        f.__name__ = name
+        f.__wrapped__ = orig
+        return f
+
+    for name in SCIPY_SPECIAL:
+        orig = getattr(SS, name, None)
+        if orig is None or hasattr(orig, "__wrapped__"):
+            continue
+        setattr(SS, name, wrap(name, orig))
